@@ -331,16 +331,7 @@ func c01CaseCutP(fn *ssa.Function, ts []c01StrTest, m string, isSubj func(v ssa.
 		if g == nil || !inModule(g) || len(g.Blocks) == 0 || g.Signature.Results().Len() != 1 {
 			continue
 		}
-		takesDesc := false
-		for _, a := range call.Call.Args {
-			if c01IsOCIDescriptor(a.Type()) {
-				takesDesc = true
-			}
-		}
-		if !takesDesc {
-			continue
-		}
-		gt := c01StrTests(g, isSubj)
+		gt := c01PredicateTests(call, isSubj)
 		if len(gt) == 0 {
 			continue // not a media-type predicate
 		}
@@ -370,6 +361,45 @@ func c01CaseCutP(fn *ssa.Function, ts []c01StrTest, m string, isSubj func(v ssa.
 		}
 	}
 	return
+}
+
+// c01PredicateTests: call is a call of a module function g that receives a
+// descriptor or its media type; returns g's own comparisons of that media type
+// with constants (empty when g is not such a predicate).
+func c01PredicateTests(call *ssa.Call, isSubj func(v ssa.Value) bool) []c01StrTest {
+	g := StaticCallee(call)
+	if g == nil || !inModule(g) || len(g.Blocks) == 0 {
+		return nil
+	}
+	subj := isSubj
+	relevant := false
+	for i, a := range call.Call.Args {
+		if i >= len(g.Params) {
+			break
+		}
+		if c01IsOCIDescriptor(a.Type()) {
+			relevant = true
+		}
+		if b, isStr := a.Type().Underlying().(*types.Basic); isStr && b.Kind() == types.String {
+			isMT := false
+			for _, r := range Roots(a) {
+				if isSubj(r) {
+					isMT = true
+				}
+			}
+			if isMT {
+				relevant = true
+				prm := g.Params[i]
+				al := Aliases(prm)
+				prev := subj
+				subj = func(v ssa.Value) bool { return prev(v) || al[v] }
+			}
+		}
+	}
+	if !relevant {
+		return nil
+	}
+	return c01StrTests(g, subj)
 }
 
 // c01EmptyStrEdges: edges on which a string x with match(x) is known to be
@@ -513,7 +543,8 @@ func c01IsErrorReturn(r *ssa.Return, errIdx int) bool {
 // cut and returns a Return that may report success (nil error, or one of the
 // `okSentinels` such as ~.SkipNode) — nil if every reachable return certainly
 // carries an error.
-func c01SuccessReturnFrom(fn *ssa.Function, from Edge, c *cut, okSentinels map[string]bool) *ssa.Return {
+func c01SuccessReturnFrom(fn *ssa.Function, from Edge, c *cut, okSentinels map[string]bool, ccs ...c01CondCut) *ssa.Return {
+	cc := c01MergeConds(ccs...)
 	errIdx := ErrResultIndex(fn.Signature)
 	type state struct{ b, pred *ssa.BasicBlock }
 	visited := map[state]bool{}
@@ -548,10 +579,7 @@ func c01SuccessReturnFrom(fn *ssa.Function, from Edge, c *cut, okSentinels map[s
 			}
 			return
 		}
-		for _, s := range b.Succs {
-			if c != nil && c.edges[Edge{b, s}] {
-				continue
-			}
+		for _, s := range c01FeasibleSuccs(b, pred, c, cc) {
 			walk(s, b)
 		}
 	}
@@ -706,8 +734,28 @@ func c01SetString(m map[string]bool) string {
 // c01FuncOfValue: the function a func-typed value denotes — a closure literal,
 // a declared function, or a bound method value (then recv is the receiver).
 func c01FuncOfValue(v ssa.Value) (fn *ssa.Function, recv ssa.Value) {
+	return c01FuncOfValueD(v, 0)
+}
+
+func c01FuncOfValueD(v ssa.Value, depth int) (fn *ssa.Function, recv ssa.Value) {
+	if v == nil || depth > 4 {
+		return nil, nil
+	}
 	for _, r := range Roots(v) {
 		switch u := r.(type) {
+		case *ssa.UnOp:
+			// a function variable captured by a closure: follow the binding's stores
+			if fv, isFV := u.X.(*ssa.FreeVar); isFV && u.Op == token.MUL {
+				for _, b := range freeVarBindings(fv) {
+					if a, isAlloc := b.(*ssa.Alloc); isAlloc {
+						for _, st := range storesTo(a) {
+							if f2, r2 := c01FuncOfValueD(st.Val, depth+1); f2 != nil {
+								fn, recv = f2, r2
+							}
+						}
+					}
+				}
+			}
 		case *ssa.Function:
 			fn = u
 		case *ssa.MakeClosure:
@@ -732,11 +780,9 @@ func c01FuncOfValue(v ssa.Value) (fn *ssa.Function, recv ssa.Value) {
 func c01GraphCopyFns(p *Prog) map[*ssa.Function]bool {
 	out := map[*ssa.Function]bool{}
 	ts := map[*ssa.Function]bool{}
-	for _, t := range traversalClosures(p) {
-		ts[t] = true
-		if t.Parent() != nil {
-			out[t.Parent()] = true
-		}
+	for _, t := range c01Traversals(p) {
+		ts[t.Entry] = true
+		ts[t.Body] = true
 	}
 	for _, f := range p.FuncsOfPkg("") {
 		if ts[f] {
@@ -933,4 +979,308 @@ func c01CallbackSites(fn *ssa.Function, fv *types.Var) (sites []ssa.CallInstruct
 		}
 	}
 	return
+}
+
+// c01Traversal is the recursive copy traversal, whatever its form: Entry is the
+// function handed to syncutil.Go that claims its node with TryCommit(param);
+// Body is the function that looks at the node and dispatches the successors
+// with syncutil.Go(…, Entry, …) — Entry itself, or a function Entry calls.
+type c01Traversal struct {
+	Entry, Body *ssa.Function
+}
+
+func c01ClaimsParam(f *ssa.Function) bool {
+	for _, tc := range CallsTo(f, nTryCommit) {
+		args := tc.Common().Args
+		if prm := c01ParamOf(args[len(args)-1]); prm != nil && prm.Parent() == f {
+			return true
+		}
+	}
+	return false
+}
+
+func c01Traversals(p *Prog) []c01Traversal {
+	var out []c01Traversal
+	seen := map[*ssa.Function]bool{}
+	dispatches := func(f, entry *ssa.Function) bool {
+		for _, g := range CallsTo(f, nGo) {
+			if len(g.Common().Args) >= 3 {
+				if fn, _ := c01FuncOfValue(g.Common().Args[2]); fn == entry {
+					return true
+				}
+			}
+		}
+		return false
+	}
+	for _, f := range p.FuncsOfPkg("") {
+		for _, g := range CallsTo(f, nGo) {
+			if len(g.Common().Args) < 3 {
+				continue
+			}
+			entry, _ := c01FuncOfValue(g.Common().Args[2])
+			if entry == nil || seen[entry] || len(entry.Blocks) == 0 || !c01ClaimsParam(entry) {
+				continue
+			}
+			var body *ssa.Function
+			if dispatches(entry, entry) {
+				body = entry
+			} else {
+				for _, call := range Calls(entry, func(string) bool { return true }) {
+					if _, isDefer := call.(*ssa.Defer); isDefer {
+						continue
+					}
+					b := StaticCallee(call)
+					if b == nil && !call.Common().IsInvoke() {
+						b, _ = c01FuncOfValue(call.Common().Value)
+					}
+					if b != nil && inModule(b) && len(b.Blocks) > 0 && dispatches(b, entry) {
+						body = b
+					}
+				}
+			}
+			if body != nil {
+				seen[entry] = true
+				out = append(out, c01Traversal{Entry: entry, Body: body})
+			}
+		}
+	}
+	sort.Slice(out, func(i, j int) bool { return out[i].Entry.String() < out[j].Entry.String() })
+	return out
+}
+
+// c01TraversalKey: stable key of the traversal (outermost declared function).
+func c01TraversalKey(t c01Traversal) string { return c01ClosureKey(t.Body, "traverse") }
+
+// c01ElemLoop recognises a loop that visits every element of a slice X once:
+// `for _, e := range X`, `for i := range X`, or `for i := 0; i < len(X); i++`.
+// idx is the index value used to address the element in the body.
+func c01ElemLoop(l *Loop) (X ssa.Value, idx ssa.Value, body, exit Edge, ok bool) {
+	if X, idx, body, exit, ok = l.RangeIndex(); ok {
+		return
+	}
+	h := l.Header
+	if len(h.Instrs) == 0 {
+		return nil, nil, Edge{}, Edge{}, false
+	}
+	ifi, isIf := h.Instrs[len(h.Instrs)-1].(*ssa.If)
+	if !isIf {
+		return nil, nil, Edge{}, Edge{}, false
+	}
+	cond, t, f := ifEdges(ifi)
+	bo, isBin := cond.(*ssa.BinOp)
+	if !isBin {
+		return nil, nil, Edge{}, Edge{}, false
+	}
+	x, y, op := bo.X, bo.Y, bo.Op
+	if op == token.GTR { // len(X) > i
+		x, y, op = y, x, token.LSS
+	}
+	if op != token.LSS {
+		return nil, nil, Edge{}, Edge{}, false
+	}
+	phi, isPhi := x.(*ssa.Phi)
+	if !isPhi || phi.Block() != h {
+		return nil, nil, Edge{}, Edge{}, false
+	}
+	ln, isCall := y.(*ssa.Call)
+	if !isCall || CalleeName(ln) != "builtin:len" {
+		return nil, nil, Edge{}, Edge{}, false
+	}
+	for i, ev := range phi.Edges {
+		if l.Blocks[h.Preds[i]] {
+			inc, isInc := ev.(*ssa.BinOp)
+			if !isInc || inc.Op != token.ADD || inc.X != ssa.Value(phi) {
+				return nil, nil, Edge{}, Edge{}, false
+			}
+			if k, isK := constInt(inc.Y); !isK || k != 1 {
+				return nil, nil, Edge{}, Edge{}, false
+			}
+		} else if k, isK := constInt(ev); !isK || k != 0 {
+			return nil, nil, Edge{}, Edge{}, false
+		}
+	}
+	return ln.Call.Args[0], phi, t, f, true
+}
+
+// c01ReachesFieldStore: f, or a module function it calls (to the given depth),
+// stores into struct field fv.
+func c01ReachesFieldStore(f *ssa.Function, fv *types.Var, depth int, seen map[*ssa.Function]bool) bool {
+	if f == nil || seen[f] || len(f.Blocks) == 0 {
+		return false
+	}
+	seen[f] = true
+	found := false
+	AllInstrs(f, func(in ssa.Instruction) {
+		if found {
+			return
+		}
+		switch x := in.(type) {
+		case *ssa.Store:
+			if p, ok := c01AddrPath(x.Addr); ok && p.last() == fv {
+				found = true
+			}
+		case ssa.CallInstruction:
+			if depth > 0 {
+				if g := StaticCallee(x); g != nil && inModule(g) && c01ReachesFieldStore(g, fv, depth-1, seen) {
+					found = true
+				}
+			}
+		}
+	})
+	return found
+}
+
+// ---------- branch conditions materialised as boolean phis (a && b in a switch case) ----------
+
+// c01CondCut: condition values with the polarity on which the branch is cut
+// (e.g. `cb != nil` -> false: the branch where the callback is nil).
+type c01CondCut map[ssa.Value]map[bool]bool
+
+func (cc c01CondCut) add(v ssa.Value, pol bool) {
+	if cc[v] == nil {
+		cc[v] = map[bool]bool{}
+	}
+	cc[v][pol] = true
+}
+
+// c01NilConds: the comparisons of a value in vals with nil, cut on the nil side.
+func c01NilConds(fn *ssa.Function, vals map[ssa.Value]bool) c01CondCut {
+	cc := c01CondCut{}
+	AllInstrs(fn, func(in ssa.Instruction) {
+		bo, ok := in.(*ssa.BinOp)
+		if !ok || (bo.Op != token.EQL && bo.Op != token.NEQ) {
+			return
+		}
+		var x ssa.Value
+		if isNilConst(bo.Y) {
+			x = bo.X
+		} else if isNilConst(bo.X) {
+			x = bo.Y
+		}
+		if x != nil && vals[x] {
+			cc.add(bo, bo.Op == token.EQL)
+		}
+	})
+	return cc
+}
+
+// c01BoolConds: the boolean values in vals themselves, cut on polarity pol.
+func c01BoolConds(vals map[ssa.Value]bool, pol bool) c01CondCut {
+	cc := c01CondCut{}
+	for v := range vals {
+		cc.add(v, pol)
+	}
+	return cc
+}
+
+func c01MergeConds(ccs ...c01CondCut) c01CondCut {
+	out := c01CondCut{}
+	for _, cc := range ccs {
+		for v, m := range cc {
+			for p := range m {
+				out.add(v, p)
+			}
+		}
+	}
+	return out
+}
+
+// c01FeasibleSuccs: the successors of b that can be taken when b was entered
+// from pred, without crossing a cut edge or a cut condition.  An If whose
+// condition is a boolean phi of b (the materialised form of `x && y` / `x || y`)
+// is decided by the phi's operand for pred: a constant selects one successor,
+// any other operand is the condition actually tested on that path.
+func c01FeasibleSuccs(b, pred *ssa.BasicBlock, c *cut, cc c01CondCut) []*ssa.BasicBlock {
+	var out []*ssa.BasicBlock
+	ifi, isIf := b.Instrs[len(b.Instrs)-1].(*ssa.If)
+	if !isIf {
+		for _, s := range b.Succs {
+			if c == nil || !c.edges[Edge{b, s}] {
+				out = append(out, s)
+			}
+		}
+		return out
+	}
+	cond := ifi.Cond
+	flip := false
+	norm := func() {
+		for {
+			u, ok := cond.(*ssa.UnOp)
+			if !ok || u.Op != token.NOT {
+				return
+			}
+			cond, flip = u.X, !flip
+		}
+	}
+	norm()
+	for depth := 0; depth < 4; depth++ {
+		phi, isPhi := cond.(*ssa.Phi)
+		if !isPhi || phi.Block() != b || pred == nil {
+			break
+		}
+		found := false
+		for i, p := range b.Preds {
+			if p == pred {
+				cond, found = phi.Edges[i], true
+			}
+		}
+		if !found {
+			break
+		}
+		norm()
+	}
+	take := func(when bool) *ssa.BasicBlock { // successor taken when cond == when
+		if when != flip {
+			return b.Succs[0]
+		}
+		return b.Succs[1]
+	}
+	if k, isK := cond.(*ssa.Const); isK && k.Value != nil {
+		s := take(boolConst(k))
+		if c == nil || !c.edges[Edge{b, s}] {
+			out = append(out, s)
+		}
+		return out
+	}
+	for _, when := range []bool{true, false} {
+		s := take(when)
+		if c != nil && c.edges[Edge{b, s}] {
+			continue
+		}
+		if cc != nil && cc[cond][when] {
+			continue
+		}
+		out = append(out, s)
+	}
+	return out
+}
+
+// c01ReachPS: path-sensitive reach (states are (block, predecessor)); like reach
+// but using c01FeasibleSuccs.
+func c01ReachPS(fromB *ssa.BasicBlock, fromIdx int, pred *ssa.BasicBlock, to ssa.Instruction, c *cut, cc c01CondCut) bool {
+	type st struct{ b, p *ssa.BasicBlock }
+	seen := map[st]bool{}
+	var scan func(b, p *ssa.BasicBlock, i int) bool
+	scan = func(b, p *ssa.BasicBlock, i int) bool {
+		for ; i < len(b.Instrs); i++ {
+			in := b.Instrs[i]
+			if in == to {
+				return true
+			}
+			if c != nil && c.instrs[in] {
+				return false
+			}
+		}
+		for _, s := range c01FeasibleSuccs(b, p, c, cc) {
+			if seen[st{s, b}] {
+				continue
+			}
+			seen[st{s, b}] = true
+			if scan(s, b, 0) {
+				return true
+			}
+		}
+		return false
+	}
+	return scan(fromB, pred, fromIdx)
 }
